@@ -141,6 +141,10 @@ func propC13Limit(c limitCase, o *hx.Obs) *hx.Failure {
 	case "depth":
 		s, d := newSearch()
 		out := hx.RunSearch(s, d, ep, &rp, hx.LimSpec{Mode: "depth", Depth: c.Value, StopAfterMs: -1, PonderHitAfterMs: -1}, 120*time.Second)
+		if out.Slow {
+			o.Label("slow-search-stopped-by-harness(inconclusive)")
+			return nil
+		}
 		if out.Hung {
 			return hx.Failf("C13/depth/hang", "%s: search did not end", ctx)
 		}
@@ -162,6 +166,10 @@ func propC13Limit(c limitCase, o *hx.Obs) *hx.Failure {
 	case "nodes":
 		s, d := newSearch()
 		out := hx.RunSearch(s, d, ep, &rp, hx.LimSpec{Mode: "nodes", Nodes: c.Value, StopAfterMs: -1, PonderHitAfterMs: -1}, 120*time.Second)
+		if out.Slow {
+			o.Label("slow-search-stopped-by-harness(inconclusive)")
+			return nil
+		}
 		if out.Hung {
 			return hx.Failf("C13/nodes/hang", "%s: search did not end", ctx)
 		}
@@ -172,6 +180,10 @@ func propC13Limit(c limitCase, o *hx.Obs) *hx.Failure {
 	case "searchmoves":
 		s, d := newSearch()
 		out := hx.RunSearch(s, d, ep, &rp, hx.LimSpec{Mode: "depth", Depth: c.Value, Moves: c.Moves, StopAfterMs: -1, PonderHitAfterMs: -1}, 120*time.Second)
+		if out.Slow {
+			o.Label("slow-search-stopped-by-harness(inconclusive)")
+			return nil
+		}
 		if out.Hung {
 			return hx.Failf("C13/searchmoves/hang", "%s: search did not end", ctx)
 		}
